@@ -36,7 +36,7 @@ def run_witness_file(cdir, path, extra_flags=()):
     b, _ = P.configure(cdir)
     flags = P.driver_flags(b) + ["-I" + os.path.join(P.VERIF, "witness")]
     cmd = ["clang++", "-fsyntax-only", "-std=c++20", "-ferror-limit=0", "-ftemplate-backtrace-limit=0",
-           "-fno-caret-diagnostics", "-fno-color-diagnostics", "-w", "-UNDEBUG"] + flags + list(extra_flags) + [path]
+           "-fno-caret-diagnostics", "-fno-color-diagnostics", "-w", "-Wno-undefined-internal", "-Wno-undefined-internal-type", "-UNDEBUG"] + flags + list(extra_flags) + [path]
     r = P.sh(cmd)
     wits = parse_witnesses(path)
     groups = []
@@ -54,6 +54,7 @@ def run_witness_file(cdir, path, extra_flags=()):
             cur["notes"].append("%s:%d:%d: %s" % (P.rel(f), ln, col, msg))
     fails = {}
     real = os.path.realpath(path)
+    last_wid = None
     for g in groups:
         wid = None
         for (f, ln, col) in g["locs"]:
@@ -64,6 +65,11 @@ def run_witness_file(cdir, path, extra_flags=()):
                         break
                 if wid:
                     break
+        if wid is None and last_wid is not None and not any("in instantiation of" in x for x in g["notes"]):
+            # clang omits the instantiation notes for follow-up errors inside the same
+            # instantiation: attribute a chain-less error to the preceding error's witness
+            wid = last_wid
+        last_wid = wid
         lib = None
         for (f, ln, col) in g["locs"]:
             rf = P.rel(f)
